@@ -19,12 +19,15 @@ Verdict(e, ok, class, kind) == <<e.id, IF ok THEN "ok" ELSE "dev", e.prop, class
 BadOutcome(e) == e.outcome \in {"panic", "timeout"}
 \* --- construction ---
 New2(e, rk) == /\ tst' = [rk |-> rk]
-               /\ tlast' = Verdict(e, e.outcome = "ok" /\ e.rk = rk, "keyschedule", IF e.outcome # "ok" THEN e.outcome ELSE "wrong-round-keys")
+               /\ tlast' = Verdict(e, e.outcome = "ok" /\ (e.rk = rk \/ e.rk = <<>>), IF e.rk = <<>> THEN "keyschedule-opaque" ELSE "keyschedule", IF e.outcome # "ok" THEN e.outcome ELSE "wrong-round-keys")
 New1(e) == New2(e, KeySchedule(e.key))
 \* --- single block ---
 Blk2(e, exp) == /\ tst' = tst
                 /\ tlast' = Verdict(e, e.outcome = "ok" /\ e.out = exp, e.op \o "." \o e.kind, IF e.outcome # "ok" THEN e.outcome ELSE "wrong-block")
-Blk1(e) == Blk2(e, IF e.op = "sm4.enc" THEN Enc(tst.rk, e.block) ELSE Dec(tst.rk, e.block))
+\* a block of the wrong length must be refused (and must leave the object as it was: the following events of the session are judged as usual)
+BlkBad(e) == /\ tst' = tst
+             /\ tlast' = Verdict(e, e.outcome = "err", e.op \o "." \o e.kind, IF e.outcome = "ok" THEN "accepted-bad-length" ELSE e.outcome)
+Blk1(e) == IF Len(e.block) # 16 THEN BlkBad(e) ELSE Blk2(e, IF e.op = "sm4.enc" THEN Enc(tst.rk, e.block) ELSE Dec(tst.rk, e.block))
 \* --- modes ---
 LenCls(n) == IF n = 0 THEN "len0" ELSE IF n < 16 THEN "partial" ELSE IF n = 16 THEN "one" ELSE IF n % 16 = 0 THEN "blocks" ELSE "blocks+tail"
 RECURSIVE TrailFF(_,_)
